@@ -126,7 +126,7 @@ def run(ctx):
     rng = random.Random(ctx.seed * 53 + 29)
     n2 = ctx.n(150, 3000)
     fails, checks = [], 0
-    tmpls = [S.fanout, S.waitfan, S.failflow, S.collect2, S.irflow, S.sendnone]
+    tmpls = [S.fanout, S.waitfan, S.failflow, S.collect2, S.irflow, S.sendnone, S.selfcancel]
     for i in range(n2):
         seed = rng.randrange(1 << 30)
         tmpl = tmpls[i % len(tmpls)]
